@@ -68,6 +68,9 @@ func (e editor) enter(from *Selection, to *Selection, new bool, strategy editStr
 			}
 			m = ml.nextMeta()
 		}
+		if ml.err != nil {
+			return ml.err
+		}
 		//fmt.Printf("Ended %s\n", meta.SchemaPath(from.Meta()))
 	}
 	return nil
@@ -150,7 +153,7 @@ func (e editor) clearChoiceCase(sel *Selection, c *meta.ChoiceCase) error {
 		}
 		m = i.nextMeta()
 	}
-	return nil
+	return i.err
 }
 
 func (e editor) node(from *Selection, to *Selection, m meta.HasDataDefinitions, new bool, strategy editStrategy) error {
